@@ -120,7 +120,7 @@ package codegen
 // templates with a freshly built lox on every run and verifies the rendered
 // functions against these contracts.
 //
-//@ package runtime
+//@ package lox.runtime
 //
 //@ func _Stack.Push
 //@   requires !isnil(s)
